@@ -72,7 +72,13 @@ func canonOf(c *engine.Ctx, key string, h *rg.G, sparse bool, witness func() int
 		c.Obs("rep:dense", 1)
 	}
 	var p []int
-	if pi := c.Call(key, func() { p = graph.CanonicalIsomorph(lg) }); pi != nil {
+	// canonical labelling is exponential in the worst case and WHICH symmetric graphs are slow depends on incidental
+	// choices (cell order, target cell): on graphs that are not small a budget overrun is counted, not judged
+	call := c.Call
+	if h.N >= 13 {
+		call = c.CallSlowOK
+	}
+	if pi := call(key, func() { p = graph.CanonicalIsomorph(lg) }); pi != nil {
 		c.Violation("canon|panic@"+engine.SiteNoLine(pi.Site)+"|"+vkey, witness(), pi.String(), "a permutation")
 		return nil, nil, false
 	}
